@@ -19,7 +19,7 @@ def fam_rewrites(rng, n):
                  "are aligned state by state through the documented layout and must agree (for (4): on the "
                  "states that remain in the space); distinct = distinct model; non-trivial = the rewriting "
                  "changed the layout or the restricted set")
-    bases = e2e.gen_cases(rng, n, features=[{"filter"}, {"period_filter"}, {"two_stochastic"}, set(), {"stochastic"}, {"period_filter", "constraint"}, {"filter", "stochastic"}, {"constraint"}])
+    bases = e2e.gen_cases(rng, n, features=[{"period_filter"}, {"two_stochastic"}, {"filter"}, {"period_filter", "constraint"}, set(), {"period_filter", "stochastic"}, {"filter", "stochastic"}, {"two_stochastic", "constraint"}])
     jobs = []       # (kind, base index, case, ren)
     cases = []
     for bi, c in enumerate(bases):
@@ -58,6 +58,12 @@ def fam_rewrites(rng, n):
             fam.violations.append({"case": c, "base": c0, "impl": i, "what": f"the {kind} model raised although the original solves: " + str(i.get("detail"))[:200]})
             continue
         inv = {v: k for k, v in ren.items()} if ren else None
+        mis = [(t, a["shape"], b["shape"]) for which, (sol, lay) in (("original", (i0, l0)), (kind, (i, l)))
+               for t, (a, b) in enumerate(zip(sol, lay)) if a["shape"] != b["shape"]]
+        if mis:
+            fam.violations.append({"case": c, "base": c0, "impl": i, "impl_base": i0,
+                                   "what": f"{kind}: a value array has shape {mis[0][1]} in period {mis[0][0]} but the documented layout gives {mis[0][2]}; the solutions cannot be aligned"})
+            continue
         va = meta.by_state(i0, l0)
         vb = meta.by_state(i, l, inv)
         diff = meta.compare_by_state(va, vb, only_common=(kind == "filter_as_constraint"))
@@ -71,7 +77,7 @@ def fam_rewrites(rng, n):
 def run(tier, seed):
     rng = random.Random(seed * 7919 + 10)
     k = 1 if tier == "quick" else 15
-    return [fam_rewrites(rng, 12 * k)]
+    return [fam_rewrites(rng, 14 * k)]
 
 
 def matches_signature(entry, item):
